@@ -274,7 +274,7 @@ class Engine:
         return r, (self._extract(model) if model is not None else None)
 
     # ------------------------------------------------------------ exploration
-    def run(self, body, exception_is_result=True):
+    def run(self, body, exception_is_result=True, before_path=None):
         """Execute body() once per feasible path. Returns the list of PathResult."""
         global _CUR
         from .values import HarnessError
@@ -286,6 +286,8 @@ class Engine:
             while True:
                 self.solver.push()         # frame holding this path's assumes / lemmas
                 self._reset_path_inner()
+                if before_path is not None:
+                    before_path()
                 value, exc = None, None
                 aborted = False
                 try:
